@@ -27,7 +27,7 @@ CLAIM = dict(
                          "correspondence with the extracted model", extra="")
 RULE = ("stream box: every n in 1..6, start/stop in [-(n+2), n+2] or None, step in {-3..-1,1..3}, None or omitted (2-part slice) "
         "= 12 type patterns, through 4 encodings (var/tup/dyn/arr; quick tier rotates the encoding per case but covers every "
-        "(pattern, encoding) pair, thorough runs all); stream edge: extents near 2^24 and 2^31 with bounds near 0, +-n, index math only; "
+        "(pattern, encoding) pair, thorough runs all) + a table of 48 compile-time-constant slices (size_t constants) x n in 1..6; stream edge: extents near 2^24 and 2^31 with bounds near 0, +-n, index math only; "
         "stream multi: seeded 1..3-axis type combinations with integers and an ellipsis in every position (quick 120 type "
         "combinations, thorough 400) x value draws, index level (shape + every source multi-index) and view level (shape + every "
         "element); stream single: view::slice(a, one slice) on 1-d arrays. "
